@@ -43,6 +43,10 @@ pub enum ByzEdit {
     CorrShare { agg: u8, level: u16, which: u8, delta: N },
     /// IDPF key (which = 0) or correlated-randomness seed (which = 1) bytes of aggregator `agg`
     KeyBytes { agg: u8, which: u8, m: Mutation },
+    /// "split the one": flip the off-path control-bit correction at `flip_level` (making that
+    /// sibling subtree live), then shift the value correction word of the queried level so that the
+    /// on-path candidate and ONE live candidate `dist` positions away sum to (1, authenticator)
+    SplitOne { flip_level: u16, dist: u16 },
 }
 
 /// What re-evaluation of a rewritten report with the real code shows for one aggregation parameter.
@@ -383,8 +387,16 @@ impl<'p, 'c, 'cc, V: SimVdaf<VK>, A: Adapter<V>, const VK: usize> World<'p, 'c, 
         let mut aps = Vec::new();
         for s in &plan.aps {
             // the aggregation parameter travels from the collector to the aggregators as bytes
-            let built = ad.agg_param(s)?;
             let hid = crate::checks_a::honest_id(&plan.inst);
+            let built = match ad.agg_param(s) {
+                Ok(b) => b,
+                Err(e) => {
+                    // the plans only contain admissible parameters: a refusal is a violation, not a
+                    // harness error
+                    ctx.fail(Violation::new(&format!("{hid}.agg_param_codec"), "agg_param|constructor", format!("an admissible aggregation parameter ({} prefixes of length {}) was refused by the constructor: {e}", s.len(), s.first().map(|x| x.len()).unwrap_or(0))));
+                    return Err("VIOLATION-RECORDED".into());
+                }
+            };
             let Some(b) = mon_encode(ctx, "AggregationParam", &built) else {
                 ctx.fail(Violation::new(&format!("{hid}.agg_param_codec"), "agg_param|encode", format!("an admissible aggregation parameter ({} prefixes of length {}) cannot be encoded", s.len(), s.first().map(|x| x.len()).unwrap_or(0))));
                 aps.push(built);
@@ -486,8 +498,8 @@ impl<'p, 'c, 'cc, V: SimVdaf<VK>, A: Adapter<V>, const VK: usize> World<'p, 'c, 
                 continue;
             }
             let link_match = f.from == env.from && f.to == env.to;
-            if f.at_source && f.kind == EnvKind::Upload {
-                // handled in `upload_all`, before fan-out
+            if f.at_source && (f.kind == EnvKind::Upload || f.kind == EnvKind::VMsg) {
+                // handled in `upload_all` / `combine`, before fan-out
                 continue;
             }
             if !link_match {
@@ -600,6 +612,9 @@ impl<'p, 'c, 'cc, V: SimVdaf<VK>, A: Adapter<V>, const VK: usize> World<'p, 'c, 
                         let labels = self.ad.byz_rewrite(self.vdaf, &self.plan.ctx.0, &nonce, &rep.meas, &mut public, &mut inputs, &rep.byz, &self.plan.aps);
                         self.ctx.fault("byzantine_client_rewrite");
                         for l in &labels {
+                            if l.desc.contains("one split between") {
+                                self.ctx.probe("split_the_one_two_live_candidates_sum_to_one");
+                            }
                             self.ctx.counters.inc(if l.must_reject { "byz.label_must_reject" } else { "byz.label_acceptable" });
                         }
                         while self.byz_labels.len() < ri {
@@ -815,6 +830,25 @@ impl<'p, 'c, 'cc, V: SimVdaf<VK>, A: Adapter<V>, const VK: usize> World<'p, 'c, 
                     }
                 } else {
                     self.ctx.fail(Violation::new("C07.roundtrip", "VerifierMessage|undecodable", "verifier message does not decode from its own encoding"));
+                }
+                // alterations of the verifier message before fan-out (every recipient sees the same)
+                let mut mb = mb;
+                for (i, f) in self.plan.faults.iter().enumerate() {
+                    if f.kind == EnvKind::VMsg && f.at_source && f.rep == rep && f.ap == ap && f.round == round && !self.fault_used[i] {
+                        if let Act::Mutate { m, .. } = &f.act {
+                            self.fault_used[i] = true;
+                            let apspec = self.plan.aps[ap as usize].clone();
+                            let regions = self.ad.layout(Kind::VMsg, 1, round, &apspec);
+                            if let Some((s, e)) = apply_mutation(&mut mb, m, &regions, 0) {
+                                self.ctx.fault("corrupt.vmsg_at_source");
+                                let reg = regions.iter().find(|r| s >= r.off && s < r.off + r.len);
+                                let site = Site { kind: Kind::VMsg, region: reg.map(|r| r.name).unwrap_or("?"), rel: (s - reg.map(|r| r.off).unwrap_or(0), e - reg.map(|r| r.off).unwrap_or(0)), agg: 1, round, len_change: matches!(m, Mutation::Trunc { .. } | Mutation::Extend { .. }), at_source: true };
+                                self.effective.push(EffFault { idx: i, rep, ap: Some(ap), exempt: false, desc: format!("{:?} of the verifier message [{s}..{e}] before fan-out", m), site: Some(site) });
+                            } else {
+                                self.ctx.counters.inc("fault.noop");
+                            }
+                        }
+                    }
                 }
                 self.ctx.trace.str("combine_ok").bytes(&mb);
                 for j in 0..self.n {
